@@ -1374,3 +1374,314 @@ theorem affine_of_corrSsq_eq_one (x y : List Rat) (hlen : x.length = y.length)
   exact hy.trans h2
 
 end CTM.Numeric
+namespace CTM.Numeric
+
+/-- a reference row that is perfectly correlated with the query row, while no
+    other row is, is the nearest leaf -/
+theorem nearestLeaf_home (refs : List (List Rat)) (x : List Rat) (l : Nat)
+    (hl : l < refs.length) (h1 : corrSsq refs[l] x = 1)
+    (hother : ∀ (j : Nat) (hj : j < refs.length), j ≠ l → corrSsq refs[j] x ≠ 1) :
+    nearestLeaf refs x = some (l, 1) := by
+  cases hn : nearestLeaf refs x with
+  | none =>
+    rw [nearestLeaf_eq_none] at hn
+    subst hn
+    simp at hl
+  | some r =>
+    obtain ⟨i, s⟩ := r
+    obtain ⟨hi, hs, hmax, _⟩ := nearestLeaf_spec refs x i s hn
+    have h2 := hmax l hl
+    rw [h1] at h2
+    have h3 := corrSsq_le_one refs[i] x
+    rw [← hs] at h3
+    have hs1 : s = 1 := le_antisymm h3 h2
+    have : i = l := by
+      by_contra hne
+      exact hother i hi hne (by rw [← hs, hs1])
+    rw [this, hs1]
+
+end CTM.Numeric
+
+namespace CTM.Election
+open CTM.Numeric
+
+/-- one bootstrap iteration sends a centroid home: if on the subset `s` the
+    query row is perfectly correlated with leaf `l`'s mean row and with no other
+    leaf's, the iteration votes for `l` with (squared) correlation 1 -/
+theorem tallyIter_home (refs : List (List Rat)) (x : List Rat) (s : List Nat) (l : Nat)
+    (hl : l < refs.length) (hs : ∀ i ∈ s, i < x.length)
+    (hsr : ∀ m ∈ refs, ∀ i ∈ s, i < m.length)
+    (h1 : corrSsq (pick s refs[l]) (pick s x) = 1)
+    (hother : ∀ (j : Nat) (hj : j < refs.length), j ≠ l →
+      corrSsq (pick s refs[j]) (pick s x) ≠ 1) :
+    tallyIter refs x s = .ok (l, 1) := by
+  unfold tallyIter
+  have c1 : s.all (· < x.length) = true := by simpa using hs
+  have c2 : refs.all (fun m => s.all (· < m.length)) = true := by simpa using hsr
+  simp only [c1, c2, Bool.not_true, Bool.or_self, Bool.false_eq_true, if_false]
+  have hl' : l < (refs.map (pick s)).length := by simpa using hl
+  rw [nearestLeaf_home (refs.map (pick s)) (pick s x) l hl' (by simpa using h1)
+    (by intro j hj hne; simpa using hother j (by simpa using hj) hne)]
+
+theorem countLeaf_unanimous (rows : List (Nat × Rat)) (l : Nat) (h : ∀ r ∈ rows, r.1 = l)
+    (j : Nat) : countLeaf rows j = if j = l then rows.length else 0 := by
+  unfold countLeaf
+  split
+  · next hj =>
+    subst hj
+    rw [List.filter_eq_self.2 (by intro r hr; simpa using h r hr)]
+  · next hj =>
+    rw [List.filter_eq_nil_iff.2 (by intro r hr; simp [h r hr]; exact fun e => hj e.symm)]
+    rfl
+
+theorem corrOfLeaf_unanimous (rows : List (Nat × Rat)) (l : Nat) (c : Rat)
+    (h : ∀ r ∈ rows, r.1 = l ∧ r.2 = c)
+    (j : Nat) : corrOfLeaf rows j = if j = l then (rows.length : Rat) * c else 0 := by
+  unfold corrOfLeaf
+  split
+  · next hj =>
+    subst hj
+    rw [List.filter_eq_self.2 (by intro r hr; simpa using (h r hr).1)]
+    have : rows.map (·.2) = List.replicate rows.length c := by
+      apply List.eq_replicate_iff.2
+      refine ⟨by simp, ?_⟩
+      intro b hb
+      obtain ⟨r, hr, rfl⟩ := List.mem_map.1 hb
+      exact (h r hr).2
+    rw [this, List.sum_replicate]
+    simp
+  · next hj =>
+    rw [List.filter_eq_nil_iff.2 (by intro r hr; simp [(h r hr).1]; exact fun e => hj e.symm)]
+    rfl
+
+end CTM.Election
+
+namespace CTM.Election
+open CTM.Numeric
+
+theorem keepRunners_form' {V : List Nat} {C : List Rat} {T : List Nat} {iters nA : Nat}
+    {order : List Nat} {ch : Choice} (hv : ValidOrder V order)
+    (h : chooseCols V C T iters nA order = .ok ch) :
+    iters ≠ 0 ∧ ∃ w rest tl2, order = w :: (rest ++ tl2) ∧
+      ch.winner = T.getD w 0 ∧ ch.prob = (V.getD w 0 : Rat) / (iters : Rat) ∧
+      ch.avgCorr = C.getD w 0 / ((if 0 < V.getD w 0 then V.getD w 0 else 1 : Nat) : Rat) ∧
+      (keepRunners ch.runners).1 =
+        (rest.filter (fun i => decide (0 < V.getD i 0))).map (fun i => T.getD i 0) ∧
+      (keepRunners ch.runners).2.1 =
+        (rest.filter (fun i => decide (0 < V.getD i 0))).map
+          (fun i => C.getD i 0 / ((if 0 < V.getD i 0 then V.getD i 0 else 1 : Nat) : Rat)) ∧
+      (keepRunners ch.runners).2.2 =
+        (rest.filter (fun i => decide (0 < V.getD i 0))).map
+          (fun i => (V.getD i 0 : Rat) / (iters : Rat)) := by
+  obtain ⟨hit, w, rest, tl2, ho, hl, h1, h2, h3, h4⟩ := chooseCols_form hv h
+  refine ⟨hit, w, rest, tl2, ho, h1, h2, h3, ?_⟩
+  unfold keepRunners
+  rw [h4, filter_valid_map (V := V) _ (fun i => rfl)]
+  simp only [List.map_map]
+  exact ⟨rfl, rfl, rfl⟩
+
+/-- if a single column holds all the votes, it wins with probability 1, its
+    average correlation is the mean of its correlation sum, and no runner-up is
+    kept -/
+theorem chooseCols_unanimous {V : List Nat} {C : List Rat} {T : List Nat} {iters nA : Nat}
+    {order : List Nat} {ch : Choice} (hv : ValidOrder V order)
+    (h : chooseCols V C T iters nA order = .ok ch) (c : Rat)
+    (w0 : Nat) (hw0 : w0 < V.length) (hV : V.getD w0 0 = iters)
+    (hC : C.getD w0 0 = (iters : Rat) * c)
+    (hzero : ∀ j, j < V.length → j ≠ w0 → V.getD j 0 = 0) :
+    ch.winner = T.getD w0 0 ∧ ch.prob = 1 ∧ ch.avgCorr = c ∧
+      keepRunners ch.runners = ([], [], []) := by
+  obtain ⟨hit, w, rest, tl2, ho, h1, h2, h3, k1, k2, k3⟩ := keepRunners_form' hv h
+  have hitpos : 0 < iters := Nat.pos_of_ne_zero hit
+  have hitq : (iters : Rat) ≠ 0 := by exact_mod_cast hit
+  have hwlt : w < V.length := hv.mem_lt (by rw [ho]; simp)
+  have hmax := (ho ▸ hv).head_max w0 hw0
+  have hw : w = w0 := by
+    by_contra hne
+    have := hzero w hwlt hne
+    omega
+  subst hw
+  have hnd := hv.nodup
+  rw [ho] at hnd
+  simp only [List.nodup_cons, List.mem_append, not_or] at hnd
+  have hfil : rest.filter (fun i => decide (0 < V.getD i 0)) = [] := by
+    apply List.filter_eq_nil_iff.2
+    intro i hi
+    have hilt : i < V.length := hv.mem_lt (by rw [ho]; simp [hi])
+    have hne : i ≠ w := fun e => hnd.1.1 (e ▸ hi)
+    have := hzero i hilt hne
+    simp only [decide_eq_true_eq]
+    omega
+  refine ⟨h1, ?_, ?_, ?_⟩
+  · rw [h2, hV]; field_simp
+  · rw [h3, hV, if_pos hitpos, hC]; field_simp
+  · rw [hfil] at k1 k2 k3
+    exact Prod.ext k1 (Prod.ext k2 k3)
+
+end CTM.Election
+
+namespace CTM.Election
+open CTM.Numeric
+
+theorem colsOf_nodup (types : List Nat) (t : Nat) : (colsOf types t).Nodup :=
+  List.nodup_range.filter _
+
+theorem mem_colsOf (types : List Nat) (t i : Nat) :
+    i ∈ colsOf types t ↔ i < types.length ∧ types.getD i 0 = t := by
+  simp [colsOf]
+
+theorem agg_unanimous {α} [AddCommMonoid α] (types : List Nat) (l : Nat)
+    (hl : l < types.length) (a : α) (t' : Nat) :
+    ((colsOf types t').map (fun i => if i = l then a else 0)).sum =
+      if types.getD l 0 = t' then a else 0 := by
+  split
+  · next ht =>
+    have : (fun i => if i = l then a else (0 : α)) = (fun i => if l = i then a else 0) := by
+      funext i; simp [eq_comm]
+    rw [this]
+    exact sum_ite_eq_of_nodup l a _ (colsOf_nodup types t') ((mem_colsOf types t' l).2 ⟨hl, ht⟩)
+  · next ht =>
+    apply List.sum_eq_zero
+    intro x hx
+    obtain ⟨i, hi, rfl⟩ := List.mem_map.1 hx
+    have hne : i ≠ l := by
+      rintro rfl
+      exact ht ((mem_colsOf types t' i).1 hi).2
+    simp [hne]
+
+/-- the columns of a unanimous tally: the column of the home child holds all
+    the votes (and the whole correlation sum), every other column none -/
+theorem columns_unanimous (types : List Nat) (l : Nat) (hl : l < types.length)
+    (iters : Nat) (q : Rat) :
+    let votes := (List.range types.length).map (fun i => if i = l then iters else 0)
+    let corr := (List.range types.length).map (fun i => if i = l then q else 0)
+    let cols := columns types votes corr
+    ∃ w0, w0 < cols.1.length ∧ cols.2.2.getD w0 0 = types.getD l 0 ∧
+      cols.1.getD w0 0 = iters ∧ cols.2.1.getD w0 0 = q ∧
+      ∀ j, j < cols.1.length → j ≠ w0 → cols.1.getD j 0 = 0 := by
+  intro votes corr cols
+  have hvget : ∀ i, i < types.length → votes.getD i 0 = if i = l then iters else 0 := by
+    intro i hi; simp [votes, List.getD, hi]
+  have hcget : ∀ i, i < types.length → corr.getD i 0 = if i = l then q else 0 := by
+    intro i hi; simp [corr, List.getD, hi]
+  by_cases hd : hasDupTypes types
+  · -- aggregated
+    have hcols : cols = aggregateVotes types votes corr := by simp [cols, columns, hd]
+    have hmem : types.getD l 0 ∈ uniqSorted types := by
+      rw [mem_uniqSorted]; simp [List.getD, hl]
+    obtain ⟨w0, hw0, hTw⟩ := List.mem_iff_getElem.1 hmem
+    have hsumv : ∀ t', ((colsOf types t').map (fun i => votes.getD i 0)).sum =
+        if types.getD l 0 = t' then iters else 0 := by
+      intro t'
+      rw [← agg_unanimous types l hl iters t']
+      congr 1
+      apply List.map_congr_left
+      intro i hi
+      exact hvget i ((mem_colsOf types t' i).1 hi).1
+    have hsumc : ∀ t', ((colsOf types t').map (fun i => corr.getD i 0)).sum =
+        if types.getD l 0 = t' then q else 0 := by
+      intro t'
+      rw [← agg_unanimous types l hl q t']
+      congr 1
+      apply List.map_congr_left
+      intro i hi
+      exact hcget i ((mem_colsOf types t' i).1 hi).1
+    rw [hcols]
+    unfold aggregateVotes
+    simp only [List.length_map]
+    refine ⟨w0, hw0, ?_, ?_, ?_, ?_⟩
+    · rw [List.getD_eq_getElem?_getD, List.getElem?_eq_getElem hw0, Option.getD_some, hTw]
+    · rw [List.getD_eq_getElem?_getD, List.getElem?_map, List.getElem?_eq_getElem hw0,
+        Option.map_some, Option.getD_some, hsumv, hTw, if_pos rfl]
+    · rw [List.getD_eq_getElem?_getD, List.getElem?_map, List.getElem?_eq_getElem hw0,
+        Option.map_some, Option.getD_some, hsumc, hTw, if_pos rfl]
+    · intro j hj hne
+      have : types.getD l 0 ≠ (uniqSorted types)[j] := by
+        intro e
+        rw [← hTw] at e
+        exact hne ((nodup_uniqSorted types).getElem_inj_iff.1 e).symm
+      rw [List.getD_eq_getElem?_getD, List.getElem?_map, List.getElem?_eq_getElem hj,
+        Option.map_some, Option.getD_some, hsumv, if_neg this]
+  · have hcols : cols = (votes, corr, types) := by simp [cols, columns, hd]
+    rw [hcols]
+    have hlen : votes.length = types.length := by simp [votes]
+    refine ⟨l, by simpa [hlen] using hl, rfl, ?_, ?_, ?_⟩
+    · show votes.getD l 0 = iters
+      rw [hvget l hl, if_pos rfl]
+    · show corr.getD l 0 = q
+      rw [hcget l hl, if_pos rfl]
+    · intro j hj hne
+      have hj' : j < types.length := by simpa [hlen] using hj
+      show votes.getD j 0 = 0
+      rw [hvget j hj', if_neg hne]
+
+end CTM.Election
+
+namespace CTM.Election
+open CTM.Numeric
+
+theorem mapM_ok_of_forall {α β ε} (f : α → Except ε β) (g : α → β) :
+    ∀ l : List α, (∀ a ∈ l, f a = .ok (g a)) → l.mapM f = .ok (l.map g)
+  | [], _ => rfl
+  | a :: l, h => by
+    rw [List.mapM_cons, h a (by simp), mapM_ok_of_forall f g l (fun b hb => h b (by simp [hb]))]
+    rfl
+
+/-- if every iteration sends the cell to leaf `l` with a correlation value whose
+    signed square is 1, the tally is the unanimous one -/
+theorem tallyVotes_unanimous (refs : List (List Rat)) (x : List Rat)
+    (subsets : List (List Nat)) (corrOf : Nat → Nat → Rat) (l : Nat)
+    (hiter : ∀ s ∈ subsets, tallyIter refs x s = .ok (l, 1))
+    (hcorr : ∀ it, corrOf it l = 1) :
+    ∃ rows : List (Nat × Rat), tallyVotes refs x subsets corrOf = .ok (tallyCell refs.length rows) ∧
+      rows.length = subsets.length ∧ ∀ r ∈ rows, r.1 = l ∧ r.2 = 1 := by
+  unfold tallyVotes
+  rw [mapM_ok_of_forall _ (fun _ => (l, (1 : Rat))) subsets hiter]
+  refine ⟨_, rfl, by simp, ?_⟩
+  intro r hr
+  obtain ⟨p, hp, rfl⟩ := List.mem_map.1 hr
+  have := (List.of_mem_zip hp).2
+  simp only [List.mem_map] at this
+  obtain ⟨_, _, hq⟩ := this
+  obtain ⟨it, q⟩ := p
+  simp only at hq ⊢
+  subst hq
+  exact ⟨rfl, hcorr it⟩
+
+theorem signed_root_one (r : Rat) (h : r * |r| = 1) : r = 1 := by
+  rcases le_total 0 r with hr | hr
+  · rw [abs_of_nonneg hr] at h
+    nlinarith
+  · rw [abs_of_nonpos hr] at h
+    nlinarith
+
+/-- unanimous tally ⇒ home child with probability 1, correlation 1, no runners-up -/
+theorem chooseCell_unanimous (types : List Nat) (n : Nat) (hn : n = types.length)
+    (rows : List (Nat × Rat)) (l : Nat) (hl : l < types.length)
+    (hrows : ∀ r ∈ rows, r.1 = l ∧ r.2 = 1) (nAssign : Nat) (order : List Nat) (ch : Choice)
+    (hv : ValidOrder (columns types (tallyCell n rows).1 (tallyCell n rows).2).1 order)
+    (hch : chooseCell types (tallyCell n rows).1 (tallyCell n rows).2 rows.length nAssign order
+      = .ok ch) :
+    ch.winner = types.getD l 0 ∧ ch.prob = 1 ∧ ch.avgCorr = 1 ∧
+      keepRunners ch.runners = ([], [], []) := by
+  subst hn
+  have hvotes : (tallyCell types.length rows).1 =
+      (List.range types.length).map (fun i => if i = l then rows.length else 0) := by
+    rw [tallyCell_votes]
+    apply List.map_congr_left
+    intro j _
+    exact countLeaf_unanimous rows l (fun r hr => (hrows r hr).1) j
+  have hcorr : (tallyCell types.length rows).2 =
+      (List.range types.length).map (fun i => if i = l then (rows.length : Rat) else 0) := by
+    rw [tallyCell_corr]
+    apply List.map_congr_left
+    intro j _
+    rw [corrOfLeaf_unanimous rows l 1 hrows j, mul_one]
+  rw [hvotes, hcorr] at hv hch
+  obtain ⟨w0, hw0, hT, hV, hC, hz⟩ := columns_unanimous types l hl rows.length (rows.length : Rat)
+  unfold chooseCell at hch
+  have := chooseCols_unanimous hv hch 1 w0 hw0 hV (by rw [hC, mul_one]) hz
+  rw [hT] at this
+  exact this
+
+end CTM.Election
